@@ -76,7 +76,7 @@ impl Seed {
             },
             Seed::Csnap { bag, kinds } => (csnap_bytes(bag, kinds), 0),
             Seed::Frame { variant, bag, cfg } => {
-                let (_, msg, _, _) = rt::build_message(*variant, bag);
+                let (_, msg, _, _) = rt::build_message_with(*variant, bag, 1);
                 let mut cc = CodecCfg::from_byte(*cfg);
                 cc.lz4 = cc.lz4 && cc.v2;
                 let cb = cc.to_byte().unwrap_or(*cfg);
@@ -94,7 +94,7 @@ impl Seed {
             },
             Seed::Wal { case } => {
                 let f = oracle::TmpFile::new("seedwal");
-                let _ = rt::wal_write(case, &f.0);
+                let _ = rt::wal_write(case, &f.0, 1);
                 let bytes = std::fs::read(&f.0).unwrap_or_default();
                 let mut out = vec![rt::wal_kind(case.kind).to_byte(case.verify)];
                 out.extend_from_slice(&bytes);
@@ -523,9 +523,9 @@ pub fn fuzz_part() -> CustomPart {
                 let base = match t {
                     "ids" => 2_000_000,
                     "rle" | "frame" => 1_500_000,
-                    "wal" => 600_000,
-                    "csnap" => 300_000,
-                    _ => 150_000,
+                    "wal" => 400_000,
+                    "csnap" => 200_000,
+                    _ => 60_000,
                 };
                 override_runs.unwrap_or(base) * cfg.scale_pct / 100
             };
@@ -582,7 +582,7 @@ pub fn fuzz_part() -> CustomPart {
                             .arg("--")
                             .arg(format!("-runs={runs}"))
                             .arg(format!("-seed={seed}"))
-                            .args(["-len_control=0", "-max_len=4096", "-rss_limit_mb=8192", "-malloc_limit_mb=8192", "-print_final_stats=1", "-max_total_time=1500"])
+                            .args(["-len_control=0", "-max_len=4096", "-rss_limit_mb=8192", "-malloc_limit_mb=8192", "-print_final_stats=1", "-max_total_time=1200"])
                             .arg(format!("-artifact_prefix={}/", arts.display()))
                             .current_dir(proj)
                             .env_remove("RUSTFLAGS")
